@@ -401,6 +401,7 @@ class Execution:
         self.wire: list = []
         self.ncmd = 0
         self.nontrivial = False
+        self.nsetup = 0
 
     # -- identity bookkeeping ------------------------------------------------
 
@@ -472,6 +473,7 @@ class Execution:
         for n in sorted(self.init['sub']):
             o = d.do(('subscribe', n))
             self._event(('subscribe', n), o, False)
+        self.nsetup = len(self.events)
         for n in sorted(self.init['mbx']):
             st = d.status(n)
             if len(self.init['mbx']) <= 8 or n == INB:
@@ -586,6 +588,20 @@ class Execution:
             for n in sorted(prev_mbx):
                 self._check_ident(d, n, ident.get(n), d.status(n), True, 'at the end')
 
+    _RESULT = ('events', 'cmds', 'drift', 'broken', 'devs', 'done_steps', 'wire',
+               'ncmd', 'nontrivial', 'nsetup')
+
+    def result(self, keep_events: bool) -> dict:
+        out = {k: getattr(self, k) for k in self._RESULT}
+        if not keep_events and self.drift is None:
+            out['events'] = []
+        out['wire'] = self.wire[-12:]
+        return out
+
+    def merge(self, res: dict) -> None:
+        for k, v in res.items():
+            setattr(self, k, v)
+
     def replay_dict(self, upto=None):
         return {'check': PROP, 'backend': self.backend, 'kind': self.kind,
                 'conc': self.conc.name,
@@ -665,7 +681,7 @@ def judge(execs: list) -> dict:
         raise tlc.TLCError('trace validation incomplete: '
                            + (res.error or res.output[-1200:]))
     used = {}
-    for m in re.finditer(r'<<"USED", (\d+), (\{[^}]*\})>>', res.output):
+    for m in re.finditer(r'<<\s*"USED",\s*(\d+),\s*(\{[^}]*\})\s*>>', res.output):
         used[int(m.group(1))] = set(tlc.parse_value(m.group(2)))
     out = {}
     for i in range(1, len(execs) + 1):
@@ -677,6 +693,38 @@ def judge(execs: list) -> dict:
 
 
 # --------------------------------------------------------------------------
+# running a plan on all cores (fork: the plan is inherited, results are small)
+
+_PLAN: list = []
+_KEEP: set = set()
+_SEED = 0
+
+
+def _work(idx: int):
+    e = _PLAN[idx]
+    random.seed(_SEED * 1000003 + idx)     # UIDVALIDITY is drawn from `random`
+    nt = e.nontrivial
+    e.run()
+    e.nontrivial = e.nontrivial or nt
+    return idx, e.result(idx in _KEEP)
+
+
+def run_plan(plan: list, keep: set, seed: int) -> None:
+    global _PLAN, _KEEP, _SEED
+    _PLAN, _KEEP, _SEED = plan, keep, seed
+    jobs = int(os.environ.get('VERIF_JOBS') or min(12, os.cpu_count() or 1))
+    if jobs <= 1 or len(plan) < 8:
+        for i in range(len(plan)):
+            _work(i)
+        return
+    import multiprocessing
+    ctx = multiprocessing.get_context('fork')
+    # longest first, so that the big matcher executions do not end the run alone
+    order = sorted(range(len(plan)), key=lambda i: -len(plan[i].steps)
+                   * (1 if not plan[i].probes else 6))
+    with ctx.Pool(jobs) as pool:
+        for idx, res in pool.imap_unordered(_work, order, chunksize=1):
+            plan[idx].merge(res)
 
 
 TOURS = {
@@ -687,6 +735,20 @@ TOURS = {
 }
 MATCH = {'quick': 'Namespace_matchq.cfg', 'thorough': 'Namespace_match.cfg'}
 SIM = {'quick': (40, 60), 'thorough': (600, 120)}     # behaviours, depth
+
+
+def cfg_with_dev(cfg: str, devs, scratch: str) -> str:
+    """The AsIs configurations follow the tree as it is believed to be: Dev =
+    the OPEN known findings (a fixed one must no longer be predicted)."""
+    text = open(os.path.join(tlc.SPEC_DIR, cfg)).read()
+    line = 'Dev = {' + ', '.join('"%s"' % d for d in sorted(devs)) + '}'
+    text, n = re.subn(r'^\s*Dev <- AllDev\s*$', '  ' + line, text, flags=re.M)
+    if n != 1:
+        raise tlc.TLCError(f'{cfg}: no "Dev <- AllDev" line')
+    path = os.path.join(scratch, cfg)
+    with open(path, 'w') as f:
+        f.write(text)
+    return path
 
 
 def _describe(e: Execution, k: int) -> str:
@@ -726,16 +788,28 @@ def main(tier: str) -> int:
         t.start()
         return t
 
-    threads = [bg('rfc', tlc.run_tlc, SPEC, 'Namespace_rfc.cfg', workers=8)]
-    for cfg, _ in TOURS[tier]:
-        threads.append(bg(cfg, tlc.dump_graph, SPEC, cfg, workers=4))
-    threads.append(bg(MATCH[tier], tlc.dump_graph, SPEC, MATCH[tier], workers=8,
-                      timeout=3000))
-    nsim, depth = SIM[tier]
-    threads.append(bg('sim', simulate, 'Namespace_sim.cfg', nsim, depth,
-                      run.seed + 1))
-    for t in threads:
-        t.join()
+    scratch = tlc._scratch('c11cfg')
+    try:
+        devs = set(run.known.open)
+        run.notes['deviations_modelled'] = sorted(devs)
+        threads = [bg('rfc', tlc.run_tlc, SPEC, 'Namespace_rfc.cfg', workers=8)]
+        for cfg, _ in TOURS[tier]:
+            threads.append(bg(cfg, tlc.dump_graph, SPEC,
+                              cfg_with_dev(cfg, devs, scratch), workers=4))
+        threads.append(bg(MATCH[tier], tlc.dump_graph, SPEC,
+                          cfg_with_dev(MATCH[tier], devs, scratch), workers=8,
+                          timeout=3000))
+        nsim, depth = SIM[tier]
+        threads.append(bg('sim', simulate,
+                          cfg_with_dev('Namespace_sim.cfg', devs, scratch),
+                          nsim, depth, run.seed + 1))
+        for t in threads:
+            t.join()
+    except tlc.TLCError as exc:
+        run.machinery(str(exc))
+        return run.finish()
+    finally:
+        shutil.rmtree(scratch, ignore_errors=True)
     for key, val in results.items():
         if isinstance(val, Exception):
             run.machinery(f'TLC on {key}: {val}')
@@ -802,20 +876,24 @@ def main(tier: str) -> int:
 
     # ---- 3. run them on the real server ----------------------------------------
     t_run = time.time()
-    for k, e in enumerate(plan):
-        random.seed(run.seed * 1000003 + k)      # UIDVALIDITY is drawn from `random`
-        e.run()
+    nmatch = 'match:' + MATCH[tier]
+    cand = [i for i, e in enumerate(plan) if e.kind != nmatch]
+    keep = set(rng.sample(cand, min(len(cand), 25 if tier == 'quick' else 200)))
+    keep |= set([i for i, e in enumerate(plan) if e.kind == nmatch
+                 and len(e.init['mbx']) <= 8][:5])
+    try:
+        run_plan(plan, keep, run.seed)
+    except Exception as exc:
+        run.machinery(f'replay failed: {exc!r}')
+        return run.finish()
     run.notes['replay_wall_s'] = round(time.time() - t_run, 1)
     run.notes['imap_commands'] = sum(e.ncmd for e in plan)
     run.notes['steps_compared'] = sum(e.done_steps for e in plan)
 
     # ---- 4. verdicts -----------------------------------------------------------
     drifted = [e for e in plan if e.drift is not None]
-    clean = [e for e in plan if e.drift is None and e.kind != 'match:' + MATCH[tier]]
-    sample = rng.sample(clean, min(len(clean), 25 if tier == 'quick' else 200))
-    sample_small = [e for e in plan if e.drift is None and e.kind.startswith('match')
-                    and len(e.init['mbx']) <= 8][:5]
-    to_judge = drifted[:400] + sample + sample_small
+    sample = [plan[i] for i in sorted(keep) if plan[i].drift is None]
+    to_judge = drifted[:400] + sample
     try:
         verd = judge(to_judge)
     except tlc.TLCError as exc:
@@ -829,38 +907,45 @@ def main(tier: str) -> int:
     for i, e in enumerate(to_judge):
         reached, length, used = verd[i]
         if e.drift is None:
-            # must be accepted, with exactly the deviations the replay saw
+            # it followed NextAsIs, a selection from the allowed outcomes
             if reached < length or used is None:
                 run.machinery(f'judge rejects an execution that matched the model at event '
                               f'{reached + 1}: {_describe(e, reached)} ({e.kind}, {e.conc.name})')
-            elif used != set(e.devs):
-                run.drift.append({'kind': e.kind, 'why': 'judge and replay disagree on the '
-                                  'deviations used', 'judge': sorted(used),
-                                  'replay': sorted(e.devs)})
             continue
         if reached >= length and used is not None:
             d = dict(e.drift)
-            d.update(kind=e.kind, conc=e.conc.name, accepted_by_judge=True)
+            d.update(kind=e.kind, conc=e.conc.name, accepted_by_judge=True,
+                     deviations=sorted(used))
             run.drift.append(d)
             for dv in used:
                 e.devs.setdefault(dv, e.drift['step'])
         else:
-            what = (f'{_describe(e, reached)} [{e.conc.name}, {e.kind}]: the answer is not '
-                    f'one RFC 3501 allows in the state reached ({e.drift["why"] if reached == len(e.events) - 1 else "event " + str(reached + 1)})')
+            last = reached == len(e.events) - 1
+            what = (f'{_describe(e, reached)} [{e.conc.name}, {e.kind}]: the answer is not one '
+                    f'RFC 3501 allows in the state reached'
+                    + (f' ({e.drift["why"]})' if last else ''))
             run.violation(what, e.replay_dict(reached + 1), None)
     if len(drifted) > 400:
         run.machinery(f'{len(drifted)} executions differ from the model; only 400 judged')
+    by_dev: dict = {}
     for e in plan:
         for what, detail in e.broken:
             rd = e.replay_dict()
             rd['detail'] = detail
             run.violation(f'{what} [{e.conc.name}, {e.kind}]', rd, None)
-        for dv, k in sorted(e.devs.items()):
-            run.violation(f'deviation {dv} at {_describe(e, len(e.cmds) - len(e.steps) + k)} '
-                          f'[{e.conc.name}, {e.kind}]', e.replay_dict(), dv)
-        sig = (e.conc.name, e.kind, [c for c in e.cmds])
-        run.count_exec(sig, nontrivial=e.nontrivial, validated=e.drift is None
-                       or e in to_judge)
+        for dv, k in e.devs.items():
+            by_dev.setdefault(dv, []).append((len(e.cmds), e.conc.name, k, e))
+        run.count_exec((e.conc.name, e.kind, e.cmds), nontrivial=e.nontrivial,
+                       validated=e.drift is None or e in to_judge)
+    for dv, lst in sorted(by_dev.items()):
+        lst.sort(key=lambda x: x[:3])
+        for n, (_l, _c, k, e) in enumerate(lst):
+            if dv in run.known.open:
+                run.known.excuses(dv)
+            elif n < 2:
+                run.violation(f'deviation {dv} at {_describe(e, e.nsetup + k)} '
+                              f'[{e.conc.name}, {e.kind}]',
+                              e.replay_dict(e.nsetup + k + 1), dv)
     for e in (plan[:1] + [x for x in plan if x.kind == 'sim'][:1]
               + [x for x in plan if x.kind.startswith('match')][:1]):
         run.sample({'kind': e.kind, 'conc': e.conc.name, 'cmds': e.cmds[:12],
